@@ -55,6 +55,27 @@ func (p Producer) err() error {
 	return ErrInjected
 }
 
+// MiddlewareBody is what the "body" middleware turns the first body part into.
+const MiddlewareBody = "this body was written by a middleware\r\nsecond line = footer\r\n"
+
+type rewritingMiddleware struct{ what string }
+
+func (r rewritingMiddleware) Handle(m *mail.Msg) *mail.Msg {
+	switch r.what {
+	case "body":
+		if parts := m.GetParts(); len(parts) > 0 {
+			parts[0].SetContent(MiddlewareBody)
+		}
+	case "subject":
+		m.Subject("subject set by a middleware")
+	}
+	return m
+}
+
+func (r rewritingMiddleware) Type() mail.MiddlewareType {
+	return mail.MiddlewareType("verif-" + r.what)
+}
+
 // Excluded reports whether a generator element is switched off through VERIF_GEN_EXCLUDE (a comma-
 // separated list). Only tools/seedeval.py sets it, when it judges a seeded change on a tree from which
 // a later fix was reverted: the element that exposes the repaired defect must not raise the alarm.
@@ -141,8 +162,11 @@ type MsgSpec struct {
 	Bcc         []string     `json:"bcc,omitempty"`
 	Headers     []HeaderSpec `json:"headers,omitempty"`
 	Boundary    string       `json:"boundary,omitempty"`
-	NoUA        bool         `json:"no_ua,omitempty"`
-	FixedDate   bool         `json:"fixed_date,omitempty"`
+	// Middleware: "body" = the message carries a middleware that rewrites the content of the first body
+	// part on every render (idempotent); "subject" = one that rewrites the subject only.
+	Middleware string `json:"middleware,omitempty"`
+	NoUA       bool   `json:"no_ua,omitempty"`
+	FixedDate  bool   `json:"fixed_date,omitempty"`
 }
 
 // Leaf is what an independent reader is expected to find for one part/embed/attachment.
@@ -361,6 +385,9 @@ func Build(spec *MsgSpec, env *Env) (*Built, error) {
 	}
 	if spec.Charset != "" {
 		opts = append(opts, mail.WithCharset(mail.Charset(spec.Charset)))
+	}
+	if spec.Middleware != "" {
+		opts = append(opts, mail.WithMiddleware(rewritingMiddleware{spec.Middleware}))
 	}
 	if spec.Boundary != "" {
 		opts = append(opts, mail.WithBoundary(spec.Boundary))
@@ -654,6 +681,10 @@ func Build(spec *MsgSpec, env *Env) (*Built, error) {
 	}
 	for _, fn := range b.after {
 		fn()
+	}
+	if spec.Middleware == "body" && len(spec.Parts) > 0 {
+		// what a reader is expected to find is what the middleware makes of the first part
+		b.Leaves[0].Content = []byte(MiddlewareBody)
 	}
 	return b, nil
 }
